@@ -750,8 +750,9 @@ def check(ctx: Ctx) -> None:
     case_table(ctx, I)
     hoist_obligations(ctx, I)
     # "every resolved dependency": the collection the hoisting starts from (rules C10.collect / C10.dedup, shared with C10)
-    from .c10 import collection_table
+    from .c10 import collection_table, render_reports_resolved
     collection_table(ctx, I)
+    render_reports_resolved(ctx, I, rule="C11.R1")
     head_field(ctx, I)
     as_html_tags_obligations(ctx, I)
     agreement(ctx, I)
